@@ -66,6 +66,7 @@ structure DState where
   evicts : List (String × String × Nat) := []   -- evictions the store reported in this record, not yet applied to the model
   ptoks  : List String := []                    -- their tokens (echoed in the model's observation)
   win    : Bool := false                        -- `racerg`: the harness reports that the write was parked inside the window
+  af     : Bool := false                        -- `emit … af=1` / `resp … af=1`: the `EventStore.Append` of this op's write fails
 
 def getSess (d : DState) (n : String) : Option DSess := d.sess.find? (·.name == n)
 
@@ -262,6 +263,13 @@ def applyLabels (d : DState) (s : DSess) (ls : List (Label String)) : DState × 
       -- the store sees a stream id (Open / Append): it is named now
       s := ((List.range s.conn.nextSid).filter fun sid => (s.conn.store sid).isSome).foldl nameSid s
     return (d, s, res)
+
+/-- one WRITE; with `d.af` its `EventStore.Append` fails (`writeFR`: nothing is appended, the message is still delivered) -/
+def applyWrite (d : DState) (s : DSess) (msg : Msg String) (ctx : Option ReqId) (ctxNew : Bool) : DState × DSess × Res :=
+  if d.af then
+    let r := writeFR s.conn msg ctx ctxNew
+    (d, { s with conn := r.1 }, r.2)
+  else applyLabels d s [.write msg ctx ctxNew]
 
 /-- exchanges of `s` that are attached to some stream (their handler is hanging) -/
 def hanging (s : DSess) : List ExId := sortNat (s.conn.streams.filterMap (·.attached))
@@ -471,7 +479,7 @@ def modelOp (d : DState) (toks : List String) : Option OpOut :=
     some <| withSess d n fun s =>
       let rid := r.toNat?.getD 0
       let tag := ".".intercalate [n, r, x, flag, serial]
-      let isCall := kind == "C"
+      let isCall := kind == "C" || kind == "P" || kind == "R"      -- sampling, ping, roots/list: server→client requests
       let ctx := if flag == "c" then some rid else none
       let ctxNew := s.newProto && flag == "c"
       if isCall && s.newProto then
@@ -481,7 +489,7 @@ def modelOp (d : DState) (toks : List String) : Option OpOut :=
         { d := d, snaps := [n], tail := " w=closing" }
       else
         let msg : Msg String := if isCall then .call ("C." ++ tag) else .notif ("N." ++ tag)
-        let (d1, s1, res) := applyLabels d s [.write msg ctx ctxNew]
+        let (d1, s1, res) := applyWrite d s msg ctx ctxNew
         -- a broken write makes jsonrpc2 cancel every handler in flight
         let s1 := if res == .broken then { s1 with dead := true, parked := [] } else s1
         let s1 := if isCall && res == .ok then { s1 with calls := s1.calls ++ [(tag, ctx, ctxNew)] } else s1
@@ -498,7 +506,7 @@ def modelOp (d : DState) (toks : List String) : Option OpOut :=
         let (d2, s2) := settle d s
         { d := putSess d2 s2, snaps := [n] }
       else
-        let (d1, s1, res) := applyLabels d s [.write (.resp rid (".".intercalate ["R", r, n, r, x])) (some rid) s.newProto]
+        let (d1, s1, res) := applyWrite d s (.resp rid (".".intercalate ["R", r, n, r, x])) (some rid) s.newProto
         let s1 := if res == .broken then { s1 with dead := true } else s1
         let (d2, s2) := settle d1 s1
         { d := putSess d2 s2, snaps := [n] }
@@ -926,9 +934,12 @@ def engine (prop : String) : Engine DState where
       ({ d with cfg := some (mkCfg d (mode == "stateless")) }, { model := "ok" })
     | _ =>
       if d.cfg.isNone then (d, { model := "nocfg" }) else
+      -- `af=1` (last token of an `emit` / `resp`): the event store fails the `Append` of this op's write
+      let af := toks.getLast? == some "af=1" && (toks.head? == some "emit" || toks.head? == some "resp") && d.store
+      let toks := if toks.getLast? == some "af=1" then toks.dropLast else toks
       -- evictions are choices of the store (they depend on byte sizes): the model takes them from the record
       let itoks0 := words impl
-      let d := { d with evicts := parsePurges itoks0, ptoks := itoks0.filter (·.startsWith "p:"), win := itoks0.contains "win=1" }
+      let d := { d with evicts := parsePurges itoks0, ptoks := itoks0.filter (·.startsWith "p:"), win := itoks0.contains "win=1", af := af }
       -- (they happen inside `Append`, before the new entry is added: for a plain op they take effect at its end —
       -- nothing in it reads the store after an append —, the race ops place them between their two parties)
       match modelOp d toks with
@@ -955,7 +966,7 @@ def engine (prop : String) : Engine DState where
         let crashed := impl.startsWith "panic" || (words impl).contains "w=panic" || (impl.splitOn "PANIC").length > 1
         let viol := if crashed then some ((if prop == "" then "C08" else prop) ++ ": the server panicked while handling this operation")
                     else mviol
-        ({ dn with mon := m, evicts := [], ptoks := [] }, { model := model, violated := viol })
+        ({ dn with mon := m, evicts := [], ptoks := [], af := false }, { model := model, violated := viol })
 
 end Resume
 
